@@ -359,8 +359,9 @@ def check(ctx, impl, label, safe, api, j, result, before, after) -> None:
         check_members(ctx, prop, base, safe, ix, j, stubs, parsed, files)
     if prop == "C10":
         check_layout(ctx, base, safe, j, stubs, outside, parsed, files)
-    if prop == "C11":
-        check_refs(ctx, base, safe, j, parsed)
+    # C11 is not judged on synthetic API objects (they use type variables and class names the analyser would never
+    # produce in those positions); S-B contributes the byte-exact correspondence of the import bookkeeping, the
+    # property's predicate is evaluated by S-E on real packages (tie/oracles_e2e.check_refs)
 
 
 # --------------------------------------------------------------------------- members of classes / modules
@@ -662,8 +663,14 @@ def walk_class(ctx, prop, base, safe, ix, j, sf, d, c, path):
                 for k in a["classes"]:
                     if not k["name"].startswith("_"):
                         inh_names.add(k["name"])
+        member_kinds = {}
+        for mem in d.members:
+            member_kinds.setdefault(mem.pyname, set()).add(mem.kind)
         for n, cnt in seen.items():
             if cnt > 1:
+                if member_kinds.get(n) == {"class"}:
+                    continue        # an inner class of a private ancestor next to an own inner class of that name:
+                                    # two different declarations (C17 speaks of methods; C03 of declarations)
                 p = "C17" if n in inh_names else "C03"
                 if prop == p:
                     ctx.oracle_failure(p, f"member {n!r} emitted {cnt} times in class {c['id']}",
